@@ -256,8 +256,14 @@ def d2_single_return(ctx, idx):
         fi = idx.func(cm.LG_MOD + '.consolidate_single_return')
         if fi.params != ['input_list', 'n_expect', 'partial_credit']:
             raise AnalysisError('consolidate_single_return: parameters changed: %s' % fi.params)
-        paths = [p for p in nf.decision_paths(fi.node.body)
-                 if not any(nf.match('n_expect is None', g) is not None for g in p.guards)]
+        paths = []
+        for p in nf.decision_paths(fi.node.body):
+            p.guards = [nf.canon(cm.resolve_objects(idx, fi.module, g)) for g in p.guards]
+            if p.leaf.expr is not None:
+                p.leaf.expr = nf.canon(cm.resolve_objects(idx, fi.module, p.leaf.expr))
+            # parameters copied into temporaries by an inlined helper (n_expect_inl2 = n_expect) are read as the parameter
+            if not any(nf.match('n_expect is None', g) is not None for g in p.guards):
+                paths.append(p)
         if not paths:
             raise AnalysisError('consolidate_single_return: no path with an explicit n_expect')
         table = {}
@@ -395,6 +401,14 @@ def d3_process(ctx, idx):
         if fi.params[1:] != ['grade_list', 'num_answers', 'msg', 'grade_decimal']:
             raise AnalysisError('process_grade_list: parameters changed: %s' % fi.params)
         selfn = fi.params[0]
+        if not lib.calls_named(fi.node, 'consolidate_single_return'):
+            cm.RESOLVED_HELPERS.clear()
+            cm.ACCUMULATOR_CLASSES.clear()
+            R = _inlined_consolidation(r, idx, fi, selfn)
+            if R is not None:
+                _process_states(r, idx, fi, selfn, R)
+            cm.mark_folded_helpers_reviewed(idx)
+            return
         csr = lib.one_call(fi, 'consolidate_single_return')
         st = cm.enclosing_stmt(csr)
         if not (isinstance(st, ast.Assign) and len(st.targets) == 1 and isinstance(st.targets[0], ast.Name) and st.value is csr):
@@ -424,6 +438,75 @@ def d3_process(ctx, idx):
 
 
 
+
+def _inlined_consolidation(r, idx, fi, selfn):
+    """process_grade_list with the consolidation written out in place (a helper / accumulator object inlined by the normaliser):
+    the record is a dict literal {'grade_decimal', 'ok', 'msg'} bound to a local.  Checks the same three hand-over obligations
+    (item credits of grade_list, expected count num_answers, switch on config['partial_credit']) on the resolved expressions."""
+    recs = [n for n in walk_own(fi.node) if isinstance(n, ast.Assign) and len(n.targets) == 1 and isinstance(n.targets[0], ast.Name)
+            and isinstance(n.value, ast.Dict) and {'grade_decimal', 'ok', 'msg'} <= {k.value for k in n.value.keys if isinstance(k, ast.Constant)}]
+    if len(recs) != 1:
+        raise AnalysisError('process_grade_list: neither a call of consolidate_single_return nor an in-place result record found')
+    R = recs[0].targets[0].id
+    where = lib.loc(fi, recs[0])
+    # value of the record's grade on every path up to the record
+    body = []
+    for s_ in fi.node.body:
+        body.append(s_)
+        if s_ is recs[0]:
+            break
+    else:
+        raise AnalysisError('process_grade_list: the result record is not built at the top level')
+    probe = ast.Return(value=recs[0].value)
+    ast.copy_location(probe, recs[0])
+    paths = nf.decision_paths(body[:-1] + [probe])
+    calls, zero_guards, other = [], [], 0
+    for p in paths:
+        if p.leaf.kind != 'ret' or not isinstance(p.leaf.expr, ast.Dict):
+            continue
+        if any(isinstance(g, ast.Compare) and len(g.ops) == 1 and isinstance(g.ops[0], ast.Is) and isinstance(g.left, ast.Name)
+               and g.left.id in fi.params and nf.const_value(g.comparators[0], 0) is None for g in p.guards):
+            continue            # a parameter of process_grade_list "is None": the caller always passes it
+        d = {k.value: v for k, v in zip(p.leaf.expr.keys, p.leaf.expr.values) if isinstance(k, ast.Constant)}
+        X = cm.resolve_objects(idx, fi.module, d['grade_decimal'])
+        guards = [cm.resolve_objects(idx, fi.module, g) for g in p.guards]
+        for e in [X] + guards:
+            calls += [n for n in ast.walk(e) if cm.is_call_to(n, 'consolidate_grades')]
+        if isinstance(X, ast.Constant) and X.value == 0:
+            zero_guards.append(guards)
+        else:
+            other += 1
+    if not calls:
+        r.undecided('process_grade_list: consolidated list', 'no consolidate_grades(...) found in the in-place consolidation', where)
+        return R
+    c = calls[0]
+    a0 = c.args[0] if c.args else None
+    ne = lib.get_kw(c, 'n_expect', 1)
+    res = nf.classify("[_R['grade_decimal'] for _R in grade_list]", a0) if a0 is not None else nf.UNRECOGNISED
+    if res == nf.MATCH:
+        r.ok('process_grade_list: consolidated list', 'grade_decimal of every item of grade_list', where)
+    elif isinstance(res, tuple):
+        r.violation('process_grade_list: consolidated list', res[1], where)
+    else:
+        r.undecided('process_grade_list: consolidated list', '`%s`' % short(a0), where)
+    if cm.is_name(ne, 'num_answers'):
+        r.ok('process_grade_list: expected count', 'num_answers', where)
+    elif ne is None or cm.is_call_to(ne, 'len', 1):
+        r.violation('process_grade_list: expected count', 'the number of expected items is %s: surplus/missing items are measured against '
+                    'the submitted list itself' % ('not passed' if ne is None else '`%s`' % short(ne)), where, expected='num_answers')
+    else:
+        r.undecided('process_grade_list: expected count', '`%s`' % short(ne), where)
+    sw = [g for g in zero_guards if any(isinstance(x, ast.UnaryOp) and isinstance(x.op, ast.Not) and lib.is_config(x.operand, 'partial_credit')
+                                       for y in g for x in nf.conjuncts(y))]
+    if sw:
+        r.ok('process_grade_list: partial_credit', "the all-or-nothing switch tests config['partial_credit']", where)
+    elif zero_guards:
+        r.undecided('process_grade_list: partial_credit', 'the zeroing path is guarded by %s' % [short(x) for x in zero_guards[0]], where)
+    else:
+        r.violation('process_grade_list: partial_credit', "no path sets the grade to 0: config['partial_credit'] has no effect", where)
+    return R
+
+
 def _credit_scaled_before_switch(idx, fi, R):
     """When process_grade_list hands the answer's credit to consolidate_single_return and the all-or-nothing comparison there is
     made on the already scaled grade, say so (the text of the violation); None otherwise."""
@@ -451,6 +534,26 @@ def _credit_scaled_before_switch(idx, fi, R):
     return None
 
 
+
+
+def _callify(g):
+    """a comparison whose consolidate_grades(...) operand may be wrapped (e.g. multiplied by 1): keep as is"""
+    return g
+
+
+def _count_form(e):
+    """(predicate, other side, generator) if e is `sum(1 for I in grade_list if P(I)) == OTHER` (either order); else None."""
+    if not (isinstance(e, ast.Compare) and len(e.ops) == 1 and isinstance(e.ops[0], ast.Eq)):
+        return None
+    for a, b in ((e.left, e.comparators[0]), (e.comparators[0], e.left)):
+        if cm.is_call_to(a, 'sum', 1) and isinstance(a.args[0], (ast.GeneratorExp, ast.ListComp)) and len(a.args[0].generators) == 1 \
+                and nf.const_value(a.args[0].elt, None) == 1 and cm.is_name(a.args[0].generators[0].iter, 'grade_list') \
+                and len(a.args[0].generators[0].ifs) == 1:
+            g = a.args[0].generators[0]
+            return g.ifs[0], b, g
+    return None
+
+
 def _process_states(r, idx, fi, selfn, R):
     """Final values of result['msg' | 'grade_decimal' | 'ok' | 'all_awarded'] per decision path, compared with the reference
     over every assignment of: nested subgrader?, all items awarded?, answer message non-empty?, item messages empty?"""
@@ -471,6 +574,8 @@ def _process_states(r, idx, fi, selfn, R):
         if isinstance(g, ast.Call) and nf.callee_name(g) in ('all', 'any') and len(g.args) == 1 \
                 and isinstance(g.args[0], (ast.GeneratorExp, ast.ListComp)) and cm.is_name(g.args[0].generators[0].iter, 'grade_list'):
             return 'a', True
+        if _count_form(g) is not None:
+            return 'a', True
         for pat_, val in (("msg != ''", True), ("msg == ''", False)):
             if nf.match(pat_, g) is not None:
                 return 'm', val
@@ -487,6 +592,18 @@ def _process_states(r, idx, fi, selfn, R):
         if isinstance(g, ast.UnaryOp) and isinstance(g.op, ast.Not):
             v = ev(g.operand, sc)
             return None if v is None else not v
+        if lib.is_config(g, 'partial_credit'):
+            return sc['pc']
+        if isinstance(g, ast.Compare) and len(g.ops) == 1 and isinstance(g.ops[0], ast.NotEq):
+            flipped = ast.Compare(left=g.left, ops=[ast.Eq()], comparators=g.comparators)
+            if _count_form(flipped) is not None:
+                return not sc['a']
+        if isinstance(g, ast.Compare) and len(g.ops) == 1 and any(cm.is_call_to(n, 'consolidate_grades') for n in ast.walk(g)):
+            v = _eval_switch(_callify(g), True, 0.5 if sc['lt'] else 1.0)      # the in-place all-or-nothing comparison
+            return v
+        if isinstance(g, ast.Compare) and len(g.ops) == 1 and isinstance(g.ops[0], (ast.Is, ast.IsNot)) \
+                and isinstance(g.left, ast.Name) and g.left.id in fi.params and nf.const_value(g.comparators[0], 0) is None:
+            return isinstance(g.ops[0], ast.IsNot)          # parameters of process_grade_list are given (not None)
         if isinstance(g, ast.BoolOp):
             vs = [ev(v, sc) for v in g.values]
             if None in vs:
@@ -542,12 +659,16 @@ def _process_states(r, idx, fi, selfn, R):
         'process_grade_list: all_awarded published'
     C_MSG, C_KEEP, C_CRED, C_OK, C_RET = 'process_grade_list: answer message', 'process_grade_list: answer message (item messages kept)', \
         'process_grade_list: answer credit', 'process_grade_list: ok after scaling', 'process_grade_list: return'
-    scenarios = [dict(zip(('nested', 'a', 'm', 'e'), c)) for c in itertools.product((True, False), repeat=4)]
+    scenarios = [dict(zip(('nested', 'a', 'm', 'e', 'pc', 'lt'), c)) for c in itertools.product((True, False), repeat=6)]
     covered = set()
     for p in paths:
         where = lib.loc(fi, p.leaf.stmt) if p.leaf.stmt is not None else fi.loc
         if p.leaf.kind == 'raise':
             continue
+        p.guards = [nf.canon(cm.resolve_objects(idx, fi.module, g)) for g in p.guards]
+        for e_ in p.effects:
+            if isinstance(e_, ast.Assign) and not isinstance(e_.value, ast.Dict):
+                e_.value = nf.canon(cm.resolve_objects(idx, fi.module, e_.value))
         opaque = [e for e in p.effects if isinstance(e, (ast.For, ast.While, ast.Try, ast.With))]
         if opaque:
             understood = False
@@ -580,6 +701,24 @@ def _process_states(r, idx, fi, selfn, R):
             else:
                 note(C_PUB, 'ok', "result['all_awarded'] set", where)
                 aa_r = resolve(aa, sc)
+                cf = _count_form(aa_r)
+                if cf is not None:
+                    pred, other_side, comp_ = cf
+                    if cm.is_call_to(other_side, 'len', 1) and cm.is_name(other_side.args[0], 'grade_list'):
+                        # count of the items with P  ==  number of graded items   is   all(P(item) for item in grade_list)
+                        aa_r = ast.Call(func=ast.Name(id='all', ctx=ast.Load()),
+                                        args=[ast.GeneratorExp(elt=pred, generators=[ast.comprehension(
+                                            target=comp_.target, iter=comp_.iter, ifs=[], is_async=0)])], keywords=[])
+                        ast.fix_missing_locations(aa_r)
+                    elif cm.is_name(other_side, 'num_answers'):
+                        note(cons, 'viol', 'all_awarded compares the number of items that earned credit with the number of EXPECTED items '
+                             '(num_answers) instead of the number of graded items (the padded grade_list): with a surplus item every expected '
+                             'item can be matched and credited while the surplus one earns nothing -- the counts are equal, all_awarded is '
+                             'true and the answer-level message is shown although a submitted item earned no credit', where)
+                        continue
+                    else:
+                        note(cons, 'und', 'all_awarded = `%s`' % short(aa_r), where)
+                        continue
                 pats = ["all(_I['all_awarded'] for _I in grade_list)", "all([_I['all_awarded'] for _I in grade_list])"] if sc['nested'] else \
                     ["all(0 < _I['grade_decimal'] for _I in grade_list)", "all([0 < _I['grade_decimal'] for _I in grade_list])"]
                 res = nf.classify(pats, aa_r)
@@ -657,7 +796,7 @@ def _process_states(r, idx, fi, selfn, R):
                     note(C_OK, 'und', "'ok' = `%s`" % short(okv), where)
     missing = [sc for sc in scenarios if tuple(sorted(sc.items())) not in covered]
     if missing:
-        note(C_MSG, 'und', 'no path understood for %d of the 16 cases' % len(missing), fi.loc)
+        note(C_MSG, 'und', 'no path understood for %d of the %d cases' % (len(missing), len(scenarios)), fi.loc)
     for construct in (C_ITEMS, C_NEST, C_PUB, C_MSG, C_KEEP, C_CRED, C_OK, C_RET):
         items = found.get(construct, [])
         viols = [(t, w) for k, t, w in items if k == 'viol']
@@ -1635,6 +1774,28 @@ _BEST_NEW = ("        best_result = None\n        for answer in answers:\n      
              "        return best_result\n\n    @staticmethod\n    def is_better_result(result, incumbent):\n"
              "        if result['grade_decimal'] > incumbent['grade_decimal']:\n            return True\n        return %s\n")
 
+_T_CLASS = ("class ListGrader(AbstractGrader):\n    \"\"\"\n    ListGrader grades lists of items according to a specified subgrader or list of\n",
+            "def _earned_credit(item):\n    return item['grade_decimal'] > 0\n\nclass _GradeTally(object):\n"
+            "    def __init__(self, input_list, awarded=_earned_credit):\n        self.grade_decimals = []\n        self.messages = []\n"
+            "        self.num_awarded = 0\n        for item in input_list:\n            self.grade_decimals.append(item['grade_decimal'])\n"
+            "            if item['msg'] != '':\n                self.messages.append(item['msg'])\n            if awarded(item):\n"
+            "                self.num_awarded += 1\n\n    def result(self, n_expect=None, partial_credit=True):\n        if n_expect is None:\n"
+            "            n_expect = len(self.grade_decimals)\n        grade_decimal = consolidate_grades(list(self.grade_decimals), n_expect)\n"
+            "        if not partial_credit and grade_decimal < 1:\n            grade_decimal = 0\n        return {\n"
+            "            'grade_decimal': grade_decimal,\n            'ok': AbstractGrader.grade_decimal_to_ok(grade_decimal),\n"
+            "            'msg': '\\n'.join(self.messages)\n        }\n\n"
+            "class ListGrader(AbstractGrader):\n    \"\"\"\n    ListGrader grades lists of items according to a specified subgrader or list of\n")
+_T_USE_OLD = ("        result = consolidate_single_return(grade_list,\n                                           n_expect=num_answers,\n"
+              "                                           partial_credit=self.config['partial_credit'])\n\n"
+              "        # Check if all inputs were awarded credit\n        if not isinstance(self.config['subgrader'], SingleListGrader):\n"
+              "            # Check to see if all items were awarded credit\n            all_awarded = all(item['grade_decimal'] > 0 for item in grade_list)\n"
+              "        else:\n            # Check to see if all_awarded was True for all of the child SingleListGraders\n"
+              "            all_awarded = all(item['all_awarded'] for item in grade_list)\n")
+_T_USE_NEW = ("        if isinstance(self.config['subgrader'], SingleListGrader):\n"
+              "            tally = _GradeTally(grade_list, awarded=lambda item: item['all_awarded'])\n        else:\n"
+              "            tally = _GradeTally(grade_list)\n        result = tally.result(num_answers, self.config['partial_credit'])\n"
+              "        all_awarded = tally.num_awarded == %s\n")
+
 MUTANTS = [
     # D1
     Mutant('surplus-penalty-zero', LG, "        grade_decimals += [-1] * n_extra", "        grade_decimals += [0] * n_extra", 'D1'),
@@ -1726,6 +1887,8 @@ MUTANTS = [
     # wave 5: refactorings with one slip (corrected forms are BENIGN twins)
     Mutant('padding-in-callee-drops-unmatched-expected', LG, _FOO_PAD + [(_FOO_READBACK, "    input_list = [result_matrix[i][j] for i, j in indexes if i < len(student_list)]\n")], None, 'D8'),
     Mutant('running-best-lost-equal-score-guard', BASE, _BEST_OLD, _BEST_NEW % "len(result['msg']) > len(incumbent['msg'])", 'D9'),
+    # wave 6: consolidation and the all() scans folded into an accumulator class
+    Mutant('tally-awarded-count-against-expected-count', LG, [_T_CLASS, (_T_USE_OLD, _T_USE_NEW % 'num_answers')], None, 'D3'),
     # D6
     Mutant('infer-literal-delimiter', LG, "        answers = expect.split(self.config['delimiter'])", "        answers = expect.split(',')", 'D6'),
     Mutant('infer-recursion-on-self', LG, "answers[idx] = self.config['subgrader'].infer_from_expect(entry)", "answers[idx] = self.infer_from_expect(entry)", 'D6'),
@@ -1763,6 +1926,7 @@ BENIGN = [
     Benign('padded-check-conditional-expression', LG, "        if isinstance(ans, _AutomaticFailure) or isinstance(inp, _AutomaticFailure):\n            return {'ok': False, 'msg': '', 'grade_decimal': 0, 'all_awarded': False}\n        return check(ans, inp)",
            "        return ({'ok': False, 'msg': '', 'grade_decimal': 0, 'all_awarded': False}\n                if isinstance(ans, _AutomaticFailure) or isinstance(inp, _AutomaticFailure) else check(ans, inp))"),
     Benign('padding-moved-into-find-optimal-order', LG, _FOO_PAD, None),
+    Benign('tally-awarded-count-against-graded-count', LG, [_T_CLASS, (_T_USE_OLD, _T_USE_NEW % 'len(grade_list)')], None),
     Benign('expect-split-through-list', LG, "        answers = expect.split(self.config['delimiter'])", "        answers = list(expect.split(self.config['delimiter']))"),
     Benign('all-awarded-list-form', LG, "all(item['grade_decimal'] > 0 for item in grade_list)", "all([item['grade_decimal'] > 0 for item in grade_list])"),
     Benign('message-guard-nested', LG, "        if all_awarded and msg != '':\n            result['msg'] = msg if result['msg'] == '' else result['msg'] + '\\n' + msg",
